@@ -43,3 +43,23 @@ Proof.
   - destruct m; cbn; try reflexivity. destruct (l_cwd s); reflexivity.
   - destruct m; cbn; try reflexivity. destruct (l_cwd s); reflexivity.
 Qed.
+
+(* ---------- events of symlink entries ---------- *)
+Ltac link_cases m s d :=
+  unfold link_event, sync_link, exec_link, plan_link, update_link, handle_symlink, produced;
+  destruct m, d as [|t|c|]; cbn; try (destruct (N.eqb t (l_target s))); cbn; destruct (l_cwd s) eqn:?; cbn.
+
+Theorem create_event_true m s d : link_event m s d = EvCreate -> d = DAbsent /\ sync_link m s d <> DAbsent.
+Proof. link_cases m s d; intro H; try discriminate H; split; try reflexivity; discriminate. Qed.
+
+Theorem skip_event_true m s d : link_event m s d = EvSkip -> sync_link m s d = d.
+Proof. link_cases m s d; intro H; try discriminate H; reflexivity. Qed.
+
+(* an update event: the entry existed; it exists afterwards too, except that in follow mode a destination LINK is removed before
+   the run finds out that the source link does not resolve to a file *)
+Theorem update_event_true m s d : link_event m s d = EvUpdate ->
+  d <> DAbsent /\ (sync_link m s d <> DAbsent \/ (m = LFollow /\ produced m s = false /\ exists t, d = DLink t)).
+Proof.
+  link_cases m s d; intro H; try discriminate H; (split; [discriminate|]);
+    first [ left; discriminate | right; split; [reflexivity|]; split; [unfold produced; rewrite ?Heqc; reflexivity | eexists; reflexivity] ].
+Qed.
